@@ -1,10 +1,16 @@
-import AlgoVerif.Model.C19Run
+import AlgoVerif.Model.C19X
 /-!
 Line-protocol component for C19.
 
-header: `comp=<input|stream|wild> src=x<hex> n=<buffer size> reader=<full|one|half|dataeof|chunks:tok,tok,…>`
+header: `comp=<input|stream|wild|position> src=x<hex> n=<buffer size> reader=<full|one|half|dataeof|chunks:tok,tok,…>
+file=x<hex of the filename given to New>` (absent = empty file name)
 with `tok` = (`h` | cap)(`e` | `x`)? or `E` (after the script: `io.EOF` together with the last bytes).
-ops: `new`, `next`, `retract`, `lexeme`, `skip`; every output line carries the dump of the internal state.
+ops: `new`, `next`, `retract`, `lexeme`, `skip`; every output line carries the dump of the internal state; a
+position that comes back (from `Lexeme`, `Skip`, inside the `*InputError` of `Next`) is printed field by field and
+then, quoted, as the caller sees it: `Position.String()` resp. the `Error()` text of the `*InputError`.
+State-independent ops on explicit values (strings as `x<hex>`):
+`pos <file> <off> <line> <col> <file> <off> <line> <col>` — `String()` of both positions, `p.Equal(q)`, `IsZero()` of both;
+`tok <term> <lexeme> <file> <off> <line> <col> <term> <lexeme> <file> <off> <line> <col>` — `String()` of both tokens, `t.Equal(u)`.
 -/
 namespace AlgoVerif.C19.Driver
 open AlgoVerif AlgoVerif.C19
@@ -74,27 +80,74 @@ def dump (i : Input) : String :=
   s!"err={showErr i.err} off={i.offset} line={i.line} col={i.column} ncol={i.nextColumn} " ++
   s!"rs={showNatList i.runeSizes.reverse} lc={showInts i.lastColumns.reverse}"
 
-def showOut : Out → String
+def quoted (s : String) : String := "\"" ++ s ++ "\""
+
+/-- `file`: the filename the `Input` was made with -/
+def showOut (file : String) : Out → String
   | .rune r => s!"ok r {r}"
   | .err .eof => "ok err eof"
   | .err .other => "ok err other"
-  | .invalid p => s!"ok err utf8 {showPos p}"
+  | .invalid p => s!"ok err utf8 {showPos p} {quoted (p.invalidError file).Error}"
   | .unit => "ok"
-  | .lexeme bytes p => s!"ok x{showHex bytes} {showPos p}"
-  | .skipped p => s!"ok {showPos p}"
+  | .lexeme bytes p => s!"ok x{showHex bytes} {showPos p} {quoted (p.at file).String}"
+  | .skipped p => s!"ok {showPos p} {quoted (p.at file).String}"
+
+/-- `x<hex>` → the string with these UTF-8 bytes -/
+def parseStr (w : String) : Option String :=
+  match w.toList with
+  | 'x' :: hex =>
+    match parseHex hex with
+    | some bytes => String.fromUTF8? (ByteArray.mk bytes.toArray)
+    | none => none
+  | _ => none
+
+def parsePosition : List String → Option Position
+  | [f, o, l, c] =>
+    match parseStr f, o.toInt?, l.toInt?, c.toInt? with
+    | some f, some o, some l, some c => some { filename := f, offset := o, line := l, column := c }
+    | _, _, _, _ => none
+  | _ => none
+
+def parseToken : List String → Option Token
+  | t :: x :: rest =>
+    match parseStr t, parseStr x, parsePosition rest with
+    | some t, some x, some p => some { terminal := t, lexeme := x, pos := p }
+    | _, _, _ => none
+  | _ => none
+
+/-- the ops on explicit positions / tokens (no `Input` involved) -/
+def valueOp (ws : List String) : Option String :=
+  match ws with
+  | "pos" :: args =>
+    match parsePosition (args.take 4), parsePosition (args.drop 4) with
+    | some p, some q =>
+      some s!"ok {quoted p.String} {quoted q.String} eq={showBool (p.Equal q)} zero={showBool p.IsZero},{showBool q.IsZero}"
+    | _, _ => some "bad-op"
+  | "tok" :: args =>
+    match parseToken (args.take 6), parseToken (args.drop 6) with
+    | some t, some u =>
+      match t.String, u.String with
+      | some a, some b => some s!"ok {quoted a} {quoted b} eq={showBool (t.Equal u)}"
+      | _, _ => some "bad-op"
+    | _, _ => some "bad-op"
+  | _ => none
 
 inductive St where
   | fresh (r : Reader)
-  | live (i : Input)
+  | live (i : XInput)
   | closed
   | dead
 
-def step (n : Nat) (st : St) (line : String) : St × String :=
+def step (file : String) (n : Nat) (st : St) (line : String) : St × String :=
+  match st, valueOp (words line) with
+  | .dead, _ => (.dead, "skip")
+  | st, some out => (st, out)
+  | st, none =>
   match st, words line with
   | .dead, _ => (.dead, "skip")
   | .fresh r, ["new"] =>
-    match Input.new r n with
-    | .ok (.ok i) => (.live i, "ok | " ++ dump i)
+    match XInput.new file r n with
+    | .ok (.ok i) => (.live i, "ok | " ++ dump i.inp)
     | .ok (.error .eof) => (.closed, "ok err eof")
     | .ok (.error .other) => (.closed, "ok err other")
     | .panic => (.dead, "panic")
@@ -108,14 +161,14 @@ def step (n : Nat) (st : St) (line : String) : St × String :=
     | none => (st, "bad-op")
     | some op =>
       match i.step op with
-      | .ok (i, o) => (.live i, showOut o ++ " | " ++ dump i)
+      | .ok (i, o) => (.live i, showOut i.filename o ++ " | " ++ dump i.inp)
       | .panic => (.dead, "panic")
       | .diverge => (.dead, "hang")
   | st, _ => (st, "bad-op")
 
-def runOps (n : Nat) : St → List String → List String
+def runOps (file : String) (n : Nat) : St → List String → List String
   | _, [] => []
-  | st, l :: ls => let (st', out) := step n st l; out :: runOps n st' ls
+  | st, l :: ls => let (st', out) := step file n st l; out :: runOps file n st' ls
 
 def runCase (hdr : List String) (ops : List String) : List String :=
   let n := headerNat hdr "n" 0
@@ -125,7 +178,10 @@ def runCase (hdr : List String) (ops : List String) : List String :=
     match parseHex hex with
     | some bytes =>
       match parseReader ((headerGet hdr "reader").getD "full") bytes with
-      | some r => if n < 1 then ops.map fun _ => "bad-case" else runOps n (.fresh r) ops
+      | some r =>
+        match parseStr ((headerGet hdr "file").getD "x") with
+        | some file => if n < 1 then ops.map fun _ => "bad-case" else runOps file n (.fresh r) ops
+        | none => ops.map fun _ => "bad-case"
       | none => ops.map fun _ => "bad-case"
     | none => ops.map fun _ => "bad-case"
   | _ => ops.map fun _ => "bad-case"
